@@ -882,20 +882,46 @@ func ruleALIAS3(c *Ctx) []Ob {
 	}{{"object", types.NewMap(types.Typ[types.String], empty)}, {"array", types.NewSlice(empty)}}
 	n := 0
 	var fns []*ssa.Function
+	inSet := map[*ssa.Function]bool{}
 	for f := range c.staticReach(cp) {
-		if c.pkgRel(f) == "util" {
+		if c.pkgRel(f) == "util" && !inSet[f] {
+			inSet[f] = true
 			fns = append(fns, f)
+		}
+	}
+	// the copies the document API hands out: Copy (what a MatchFunc predicate is given), AsMap, ToMap - they
+	// are built by the helper, or by code of their own that is held to the same rule
+	for _, name := range []string{"Copy", "AsMap", "ToMap"} {
+		if m := c.lookupMethod("document", "Document", name); m != nil {
+			for f := range c.staticReach(m) {
+				if c.pkgRel(f) == "document" && !inSet[f] && (f == m || f.Parent() != nil) {
+					inSet[f] = true
+					fns = append(fns, f)
+				}
+			}
 		}
 	}
 	sort.Slice(fns, func(i, j int) bool { return c.fname(fns[i]) < c.fname(fns[j]) })
 	// values that are raw pieces of the input: elements of a ranged map / slice, or an interface
 	// parameter of a helper (the value to copy)
 	for _, fn := range fns {
-		isRaw := func(v ssa.Value) bool {
+		var isRawD func(v ssa.Value, d int) bool
+		isRawD = func(v ssa.Value, d int) bool {
+			if d > 4 {
+				return false
+			}
 			for _, og := range origins(v) {
 				switch x := og.(type) {
 				case *ssa.Extract:
 					if _, isNext := x.Tuple.(*ssa.Next); isNext && x.Index == 2 {
+						return true
+					}
+					// the value of the original seen through a type assertion / switch is still that value
+					if ta, isTA := x.Tuple.(*ssa.TypeAssert); isTA && x.Index == 0 && isRawD(ta.X, d+1) {
+						return true
+					}
+				case *ssa.TypeAssert:
+					if !x.CommaOk && isRawD(x.X, d+1) {
 						return true
 					}
 				case *ssa.UnOp:
@@ -922,6 +948,7 @@ func ruleALIAS3(c *Ctx) []Ob {
 			}
 			return false
 		}
+		isRaw := func(v ssa.Value) bool { return isRawD(v, 0) }
 		notKind := map[string][]edge{}
 		for _, kd := range kinds {
 			kd := kd
@@ -934,8 +961,20 @@ func ruleALIAS3(c *Ctx) []Ob {
 				return ok && ta.CommaOk && types.Identical(ta.AssertedType, kd.t) && !branch
 			})
 		}
+		isKind := map[string][]edge{}
+		for _, kd := range kinds {
+			kd := kd
+			isKind[kd.name] = guardEdges(fn, func(cond ssa.Value, branch bool) bool {
+				ex, ok := cond.(*ssa.Extract)
+				if !ok || ex.Index != 1 {
+					return false
+				}
+				ta, ok := ex.Tuple.(*ssa.TypeAssert)
+				return ok && ta.CommaOk && types.Identical(ta.AssertedType, kd.t) && branch
+			})
+		}
 		k := 0
-		report := func(at ssa.Instruction, b *ssa.BasicBlock) {
+		report := func(at ssa.Instruction, b *ssa.BasicBlock, val ssa.Value) {
 			n++
 			k++
 			key := fmt.Sprintf("%s/value handed to the copy as it is #%d", c.fname(fn), k)
@@ -945,10 +984,88 @@ func ruleALIAS3(c *Ctx) []Ob {
 					missing = kd.name
 				}
 			}
+			// a nil container (seen through a type assertion) is shared harmlessly
+			if missing != "" && val != nil {
+				v := val
+				if mi, ok := v.(*ssa.MakeInterface); ok {
+					v = mi.X
+				}
+				if guardedBy(fn, b, nilEdges(fn, sameValue(v))) {
+					o.add(OK, key, relPath(c, at.Pos()), "only where the container is nil")
+					return
+				}
+			}
 			if missing == "" {
 				o.add(OK, key, relPath(c, at.Pos()), "only where the value is neither an object nor an array")
 			} else {
-				o.add(VIOLATED, key, relPath(c, at.Pos()), "a value of the original goes into the copy without having been found not to be an %s: the copy shares its %ss with the original, so a MatchFunc predicate working on Document.Copy() that sorts or rewrites an %s changes the document the operation returns, stores (Update) or takes the index values to remove from (Delete leaves the entry of the stored value behind)", missing, missing, missing)
+				o.add(VIOLATED, key, relPath(c, at.Pos()), "a value of the original goes into the copy without having been found not to be an %s: the copy shares its %ss with the original (an empty object too: Set(\"a.b\", v) writes into it), so a MatchFunc predicate working on Document.Copy() that sorts or rewrites an %s changes the document the operation returns, stores (Update) or takes the index values to remove from (Delete leaves the entry of the stored value behind)", missing, missing, missing)
+			}
+		}
+		// copy(dst, src): every element of the original goes into the copy in one go; each container kind
+		// must then be replaced by a copy of its own (a store into dst of a value that is not the
+		// original's, on the branch where the element was found to be of that kind)
+		reportCopy := func(call *ssa.Call, b *ssa.BasicBlock) {
+			n++
+			k++
+			key := fmt.Sprintf("%s/value handed to the copy as it is #%d", c.fname(fn), k)
+			dst := call.Call.Args[0]
+			// the assertion that found the source to be an array says nothing about its elements
+			outer := map[ssa.Value]bool{}
+			for _, og := range origins(call.Call.Args[1]) {
+				if ex, ok := og.(*ssa.Extract); ok {
+					if ta, ok := ex.Tuple.(*ssa.TypeAssert); ok {
+						outer[ta.X] = true
+					}
+				}
+				if ta, ok := og.(*ssa.TypeAssert); ok {
+					outer[ta.X] = true
+				}
+			}
+			elemEdges := func(all []edge) []edge {
+				var out []edge
+				for _, e := range all {
+					iff := e.From.Instrs[len(e.From.Instrs)-1].(*ssa.If)
+					if ex, ok := iff.Cond.(*ssa.Extract); ok {
+						if ta, ok := ex.Tuple.(*ssa.TypeAssert); ok && outer[ta.X] {
+							continue
+						}
+					}
+					out = append(out, e)
+				}
+				return out
+			}
+			missing := ""
+			for _, kd := range kinds {
+				replaced := false
+				kindE := elemEdges(isKind[kd.name])
+				for _, b2 := range fn.Blocks {
+					for _, in2 := range b2.Instrs {
+						st, ok := in2.(*ssa.Store)
+						if !ok {
+							continue
+						}
+						ia, ok := st.Addr.(*ssa.IndexAddr)
+						if !ok || !(ia.X == dst || sameOrigin(ia.X, dst)) || isRaw(st.Val) {
+							continue
+						}
+						if guardedBy(fn, b2, kindE) {
+							replaced = true
+						}
+						for _, e := range kindE {
+							if e.to() == b2 {
+								replaced = true
+							}
+						}
+					}
+				}
+				if !replaced {
+					missing = kd.name
+				}
+			}
+			if missing == "" {
+				o.add(OK, key, relPath(c, call.Pos()), "the elements copied in one go are replaced by copies of their own where they are objects or arrays")
+			} else {
+				o.add(VIOLATED, key, relPath(c, call.Pos()), "copy() puts every element of the original into the copy, and no later store replaces those that are %ss by a copy of their own: the copy shares its nested %ss with the original, so a MatchFunc predicate working on Document.Copy() that sorts or rewrites one changes the document the operation returns, stores (Update) or takes the index values to remove from", missing, missing)
 			}
 		}
 		for _, b := range fn.Blocks {
@@ -956,17 +1073,51 @@ func ruleALIAS3(c *Ctx) []Ob {
 				switch x := in.(type) {
 				case *ssa.MapUpdate:
 					if isRaw(x.Value) {
-						report(x, b)
+						report(x, b, x.Value)
 					}
 				case *ssa.Store:
 					if _, isIA := x.Addr.(*ssa.IndexAddr); isIA && isRaw(x.Val) {
-						report(x, b)
+						report(x, b, x.Val)
+					}
+					// the copy is given the very map of the original
+					if _, isFA := x.Addr.(*ssa.FieldAddr); isFA && c.pkgRel(fn) == "document" {
+						for _, og := range origins(x.Val) {
+							if _, f, nn := fieldLoad(og); f != "" && nn != nil && nn.Obj().Name() == "Document" {
+								if _, isMap := og.Type().Underlying().(*types.Map); isMap {
+									n++
+									k++
+									o.add(VIOLATED, fmt.Sprintf("%s/value handed to the copy as it is #%d", c.fname(fn), k), relPath(c, x.Pos()), "the new document is given the map of fields of the original itself: the copy and the original are one object as far as Set goes")
+								}
+							}
+						}
 					}
 				case *ssa.Return:
+					if c.pkgRel(fn) == "document" {
+						for _, r := range x.Results {
+							if _, isMap := r.Type().Underlying().(*types.Map); !isMap {
+								continue
+							}
+							for _, og := range origins(r) {
+								if _, f, nn := fieldLoad(og); f != "" && nn != nil && nn.Obj().Name() == "Document" {
+									n++
+									k++
+									o.add(VIOLATED, fmt.Sprintf("%s/value handed to the copy as it is #%d", c.fname(fn), k), relPath(c, x.Pos()), "the map of fields of the document itself is handed out: the caller's writes reach the document (ExportCollection, the update of DB.Update and MatchFunc predicates work on what these functions return)")
+								}
+							}
+						}
+					}
 					if fn != cp {
 						for _, r := range x.Results {
 							if _, isI := r.Type().Underlying().(*types.Interface); isI && isRaw(r) {
-								report(x, b)
+								report(x, b, r)
+							}
+						}
+					}
+				case *ssa.Call:
+					if bi, isB := x.Call.Value.(*ssa.Builtin); isB && bi.Name() == "copy" && len(x.Call.Args) == 2 {
+						if st, isS := x.Call.Args[1].Type().Underlying().(*types.Slice); isS {
+							if _, isI := st.Elem().Underlying().(*types.Interface); isI && isRaw(x.Call.Args[1]) {
+								reportCopy(x, b)
 							}
 						}
 					}
